@@ -4,6 +4,8 @@ Request: {"m": "<model>", …model-specific fields…}.  Reply: {"ok": <value>} 
 The handlers call the same definitions the theorems in LianVerif/Properties are about.
 -/
 import LianVerif.Drv.PathStore
+import LianVerif.Drv.Fold
+import LianVerif.Drv.Aref
 
 open Lean LianVerif.Drv
 
@@ -11,6 +13,8 @@ def dispatch (j : Json) : Except String Json := do
   let m ← getStr (← field j "m")
   match m with
   | "pathstore" => LianVerif.Drv.PathStore.handle j
+  | "fold" => LianVerif.Drv.Fold.handle j
+  | "aref" => LianVerif.Drv.Aref.handle j
   | _ => throw s!"unknown model {m}"
 
 partial def loop (hin hout : IO.FS.Stream) : IO Unit := do
